@@ -5,6 +5,7 @@
   no out-of-object access, nothing delivered that was not received.
 -/
 import Mhd.Proofs.PPMultiInv
+import Mhd.Proofs.PPMultiTerm
 import Mhd.Proofs.PPValue
 namespace Mhd.PP
 
@@ -63,11 +64,12 @@ theorem take_infix_of_suffix {T pre buf : Bytes} (n : Nat) (h : T = pre ++ buf) 
   ⟨pre, buf.drop n, by rw [h]; simp⟩
 
 theorem mpIter_spec (d : Bytes) (pp : PP) (l : ML) (T : Bytes) (h : MPend pp T 0) (hl : l.ioff = 0)
-    (hp : l.poff ≤ d.length) (hne : l.poff < d.length ∨ 0 < pp.buf.length) :
+    (hp : l.poff ≤ d.length) (hne : l.poff < d.length ∨ (0 < pp.buf.length ∧ l.stateChanged = true)) :
     (mpIter d pp l).2.1.poff ≤ d.length ∧ l.poff ≤ (mpIter d pp l).2.1.poff ∧
     MPend (mpIter d pp l).1 (T ++ slice d l.poff (mpIter d pp l).2.1.poff) (mpIter d pp l).2.1.ioff ∧
     ((mpIter d pp l).2.2 = .again → (mpIter d pp l).2.1.ioff = 0) ∧
-    (mpIter d pp l).1.bufferSize = pp.bufferSize := by
+    (mpIter d pp l).1.bufferSize = pp.bufferSize ∧
+    ((mpIter d pp l).2.2 = .again → phi d (mpIter d pp l).1 (mpIter d pp l).2.1 < phi d pp l) := by
   have hg : ¬ pp.buf.length > pp.bufferSize := by have := h.size; omega
   generalize hmax : min (pp.bufferSize - pp.buf.length) (d.length - l.poff) = mx
   have hmx1 : mx ≤ pp.bufferSize - pp.buf.length := by rw [← hmax]; exact Nat.min_le_left _ _
@@ -84,7 +86,7 @@ theorem mpIter_spec (d : Bytes) (pp : PP) (l : ML) (T : Bytes) (h : MPend pp T 0
     rw [List.length_append, hsl]; have := h.size; omega
   have hne1 : 0 < (pp.buf ++ slice d l.poff (l.poff + mx)).length := by
     rw [List.length_append, hsl]
-    rcases hne with hlt | hb
+    rcases hne with hlt | ⟨hb, _⟩
     · have := h.pos
       by_cases hfull : pp.buf.length = pp.bufferSize
       · omega
@@ -103,7 +105,7 @@ theorem mpIter_spec (d : Bytes) (pp : PP) (l : ML) (T : Bytes) (h : MPend pp T 0
   simp only [hg, if_false, hmax]
   by_cases herr : mx = 0 ∧ l.stateChanged = false ∧ l.poff + mx < d.length
   · rw [if_pos herr]
-    refine ⟨by show l.poff + mx ≤ d.length; omega, by show l.poff ≤ l.poff + mx; omega, ?_, nofun, rfl⟩
+    refine ⟨by show l.poff + mx ≤ d.length; omega, by show l.poff ≤ l.poff + mx; omega, ?_, nofun, rfl, nofun⟩
     show MPend { pp with buf := pp.buf ++ slice d l.poff (l.poff + mx), state := .error }
       (T ++ slice d l.poff (l.poff + mx)) l.ioff
     rw [hl]
@@ -115,10 +117,12 @@ theorem mpIter_spec (d : Bytes) (pp : PP) (l : ML) (T : Bytes) (h : MPend pp T 0
       { l with poff := l.poff + mx, stateChanged := false } hC1 hne1
     have rnone := rnMachine_none { pp with buf := pp.buf ++ slice d l.poff (l.poff + mx) }
       { l with poff := l.poff + mx, stateChanged := false }
+    have rnp := rn_prog { pp with buf := pp.buf ++ slice d l.poff (l.poff + mx) }
+      { l with poff := l.poff + mx, stateChanged := false }
     generalize hrn : rnMachine { pp with buf := pp.buf ++ slice d l.poff (l.poff + mx) }
-      { l with poff := l.poff + mx, stateChanged := false } = rr at r1 r2 r3 r4 r5 r6 r7 rnone
+      { l with poff := l.poff + mx, stateChanged := false } = rr at r1 r2 r3 r4 r5 r6 r7 rnone rnp
     obtain ⟨pp2, l3, fo⟩ := rr
-    simp only at r1 r2 r3 r4 r5 r6 r7 rnone
+    simp only at r1 r2 r3 r4 r5 r6 r7 rnone rnp
     have hio3 : l3.ioff ≤ pp2.buf.length := by rw [r2]; simp only [hl] at r6; omega
     have hP2 : MPend pp2 (T ++ slice d l.poff (l.poff + mx)) l3.ioff := base pp2 l3.ioff r1 r4 r2 r3 hio3
     cases fo with
@@ -129,24 +133,31 @@ theorem mpIter_spec (d : Bytes) (pp : PP) (l : ML) (T : Bytes) (h : MPend pp T 0
         obtain ⟨a1, a2, a3, a4⟩ := again_spec pp2 l3 _ hP2
         have hf : (again pp2 l3).1.fault.isSome = false := by rw [a1.ctl.fault]; rfl
         simp only [hf, Bool.false_eq_true, if_false]
-        exact ⟨by rw [a3, r7]; show l.poff + mx ≤ d.length; omega, by rw [a3, r7]; show l.poff ≤ l.poff + mx; omega,
-          by rw [a2, a3, r7]; exact a1, fun _ => a2, by rw [a4, r4]⟩
+        obtain ⟨g1, _, _, g4⟩ := again_len pp2 l3 hio3
+        have hcons : l.ioff < l3.ioff := rnp.1 rfl
+        refine ⟨by rw [a3, r7]; show l.poff + mx ≤ d.length; omega, by rw [a3, r7]; show l.poff ≤ l.poff + mx; omega,
+          by rw [a2, a3, r7]; exact a1, fun _ => a2, by rw [a4, r4], fun _ => ?_⟩
+        exact phi_consume d pp _ l _ mx l3.ioff hmx2 (by omega) (by rw [r2, List.length_append, hsl] at hio3; exact hio3)
+          (by rw [g1, r2, List.length_append, hsl]) (by rw [g4, r7])
       | gotoEnd =>
         simp only
         exact ⟨by rw [r7]; show l.poff + mx ≤ d.length; omega, by rw [r7]; show l.poff ≤ l.poff + mx; omega,
-          by rw [r7]; exact hP2, nofun, r4⟩
+          by rw [r7]; exact hP2, nofun, r4, nofun⟩
       | ret =>
         simp only
         exact ⟨by rw [r7]; show l.poff + mx ≤ d.length; omega, by rw [r7]; show l.poff ≤ l.poff + mx; omega,
-          by rw [r7]; exact hP2, nofun, r4⟩
+          by rw [r7]; exact hP2, nofun, r4, nofun⟩
     | none =>
       simp only
       have hio0 : l3.ioff = 0 := by rw [rnone rfl]; exact hl
       obtain ⟨o1, o2, o3, o4, o5, o6⟩ := mainSwitch_spec pp2 l3 r1
       have hpo := mainSwitch_poff pp2 l3
-      generalize hms : mainSwitch pp2 l3 = mr at o1 o2 o3 o4 o5 o6 hpo
+      have hpr := mainSwitch_prog pp2 l3
+      obtain ⟨rs1, rs2⟩ := rnp.2 rfl
+      generalize hms : mainSwitch pp2 l3 = mr at o1 o2 o3 o4 o5 o6 hpo hpr
       obtain ⟨pp3, l4, fl⟩ := mr
       simp only at o1 o2 o3 o4 o5 o6 hpo
+      simp only [Prog, ProgK] at hpr
       rw [hio0] at o3 o4 o5
       have hlen3 : pp3.buf.length = pp2.buf.length := by
         rcases o5 with hb | ⟨nl, _, hb, _⟩ <;> rw [hb]
@@ -180,7 +191,11 @@ theorem mpIter_spec (d : Bytes) (pp : PP) (l : ML) (T : Bytes) (h : MPend pp T 0
           have hf : pp3.fault.isSome = false := by rw [o1.fault]; rfl
           simp only [hf, Bool.false_eq_true, if_false]
           refine ⟨by rw [hpo, r7]; show l.poff + mx ≤ d.length; omega, by rw [hpo, r7]; show l.poff ≤ l.poff + mx; omega,
-            ?_, by first | trivial | exact fun _ => rfl, by rw [o2, r4]⟩
+            ?_, by first | trivial | exact fun _ => rfl, by rw [o2, r4], fun _ =>
+              phi_consume d pp _ l _ mx l4.ioff hmx2 (by omega)
+                (by rw [hlen3, r2, List.length_append, hsl] at hio4; exact hio4)
+                (by show (pp3.buf.drop l4.ioff).length = _; rw [List.length_drop, hlen3, r2, List.length_append, hsl])
+                (by show l4.poff = _; rw [hpo, r7])⟩
           rw [hpo, r7]
           refine ⟨⟨o1.fault, o1.url, o1.st, o1.dst, o1.nest⟩, ?_, by show 0 < pp3.bufferSize; rw [o2]; exact hP2.pos, ?_, hevs3,
             Nat.zero_le _⟩
@@ -197,9 +212,20 @@ theorem mpIter_spec (d : Bytes) (pp : PP) (l : ML) (T : Bytes) (h : MPend pp T 0
           have hf : pp3.fault.isSome = false := by rw [o1.fault]; rfl
           simp only [hf, Bool.false_eq_true, if_false]
           refine ⟨by rw [hpo, r7]; show l.poff + mx ≤ d.length; omega, by rw [hpo, r7]; show l.poff ≤ l.poff + mx; omega,
-            ?_, fun _ => hz, by rw [o2, r4]⟩
-          rw [hpo, r7]
-          exact ⟨o1, by rw [hb3, o2]; exact hP2.size, by rw [o2]; exact hP2.pos, by rw [hb3]; exact hP2.win, hevs3, hio4⟩
+            ?_, fun _ => hz, by rw [o2, r4], fun _ => ?_⟩
+          · rw [hpo, r7]
+            exact ⟨o1, by rw [hb3, o2]; exact hP2.size, by rw [o2]; exact hP2.pos, by rw [hb3]; exact hP2.win, hevs3, hio4⟩
+          · have hrk2 : rankM pp2.state ≤ rankM pp.state := by
+              rcases rs1 with hh | hh <;> rw [hh]
+              · exact Nat.le_refl _
+              · simp [rankM]
+            have hsc3 : l3.stateChanged = false := rs2
+            apply phi_idle d pp pp3 l l4 mx hmax h.size hp (by rw [hlen3, r2, List.length_append, hsl])
+              (by rw [hpo, r7]) (by rw [o2, r4]) hne herr
+            rcases hpr rfl with hh | ⟨hh1, hh2⟩ | ⟨hh1, hh2⟩
+            · omega
+            · exact Or.inl ⟨hh1, by omega⟩
+            · exact Or.inr ⟨by rw [hh1, hsc3], by omega⟩
       | gotoEnd =>
         simp only
         have hb3 : pp3.buf = pp2.buf := by
@@ -207,7 +233,7 @@ theorem mpIter_spec (d : Bytes) (pp : PP) (l : ML) (T : Bytes) (h : MPend pp T 0
           · exact hb
           · cases hfl
         refine ⟨by rw [hpo, r7]; show l.poff + mx ≤ d.length; omega, by rw [hpo, r7]; show l.poff ≤ l.poff + mx; omega,
-          ?_, nofun, by rw [o2, r4]⟩
+          ?_, nofun, by rw [o2, r4], nofun⟩
         rw [hpo, r7]
         exact ⟨o1, by rw [hb3, o2]; exact hP2.size, by rw [o2]; exact hP2.pos, by rw [hb3]; exact hP2.win, hevs3, hio4⟩
       | ret =>
@@ -217,49 +243,40 @@ theorem mpIter_spec (d : Bytes) (pp : PP) (l : ML) (T : Bytes) (h : MPend pp T 0
           · exact hb
           · cases hfl
         refine ⟨by rw [hpo, r7]; show l.poff + mx ≤ d.length; omega, by rw [hpo, r7]; show l.poff ≤ l.poff + mx; omega,
-          ?_, nofun, by rw [o2, r4]⟩
+          ?_, nofun, by rw [o2, r4], nofun⟩
         rw [hpo, r7]
         exact ⟨o1, by rw [hb3, o2]; exact hP2.size, by rw [o2]; exact hP2.pos, by rw [hb3]; exact hP2.win, hevs3, hio4⟩
 
 
-def fuelFault : Option String := some "multipart-fuel"
-
 theorem mpLoop_spec (d : Bytes) : ∀ (fuel : Nat) (pp : PP) (l : ML) (T : Bytes), MPend pp T 0 → l.ioff = 0 →
-    l.poff ≤ d.length →
-    ((mpLoop fuel d pp l).1.fault = fuelFault ∧ (mpLoop fuel d pp l).2.2 = .ret) ∨
+    l.poff ≤ d.length → phi d pp l < fuel →
     (l.poff ≤ (mpLoop fuel d pp l).2.1.poff ∧ (mpLoop fuel d pp l).2.1.poff ≤ d.length ∧
       MPend (mpLoop fuel d pp l).1 (T ++ slice d l.poff (mpLoop fuel d pp l).2.1.poff) (mpLoop fuel d pp l).2.1.ioff) := by
   intro fuel
   induction fuel with
-  | zero => intro pp l T _ _ _; left; exact ⟨rfl, rfl⟩
+  | zero => intro pp l T _ _ _ h; omega
   | succ n ih =>
-    intro pp l T h hl hp
+    intro pp l T h hl hp hphi
     rw [mpLoop]
     by_cases hc : l.poff < d.length ∨ (pp.buf.length > 0 ∧ l.stateChanged = true)
     · rw [if_pos hc]
-      have hne : l.poff < d.length ∨ 0 < pp.buf.length := by
-        rcases hc with h1 | h1
-        · exact Or.inl h1
-        · exact Or.inr h1.1
-      obtain ⟨i1, i2, i3, i4, i5⟩ := mpIter_spec d pp l T h hl hp hne
-      generalize hit : mpIter d pp l = r at i1 i2 i3 i4 i5
+      obtain ⟨i1, i2, i3, i4, i5, i6⟩ := mpIter_spec d pp l T h hl hp hc
+      generalize hit : mpIter d pp l = r at i1 i2 i3 i4 i5 i6
       obtain ⟨pp1, l1, fl⟩ := r
-      simp only at i1 i2 i3 i4 i5
+      simp only at i1 i2 i3 i4 i5 i6
       cases fl with
       | again =>
         simp only
         have hz := i4 rfl
+        have hlt := i6 rfl
         rw [hz] at i3
-        rcases ih pp1 l1 _ i3 hz i1 with hf | ⟨j1, j2, j3⟩
-        · exact Or.inl hf
-        · right
-          refine ⟨by omega, j2, ?_⟩
-          rw [List.append_assoc, ← slice_split d l.poff l1.poff _ i2 j1] at j3
-          exact j3
-      | gotoEnd => right; exact ⟨i2, i1, i3⟩
-      | ret => right; exact ⟨i2, i1, i3⟩
+        obtain ⟨j1, j2, j3⟩ := ih pp1 l1 _ i3 hz i1 (by omega)
+        refine ⟨by omega, j2, ?_⟩
+        rw [List.append_assoc, ← slice_split d l.poff l1.poff _ i2 j1] at j3
+        exact j3
+      | gotoEnd => exact ⟨i2, i1, i3⟩
+      | ret => exact ⟨i2, i1, i3⟩
     · rw [if_neg hc]
-      right
       refine ⟨Nat.le_refl _, hp, ?_⟩
       have : slice d l.poff l.poff = [] := by simp [slice]
       simp only [this, List.append_nil, hl]
@@ -267,9 +284,6 @@ theorem mpLoop_spec (d : Bytes) : ∀ (fuel : Nat) (pp : PP) (l : ML) (T : Bytes
 
 theorem slice_zero (d : Bytes) (p : Nat) : slice d 0 p = d.take p := by simp [slice]
 
-/-- one multipart call: either the model's fuel ran out, or the invariant holds again for the
-    input received so far extended by the part `d.take p` of the chunk that was copied; the call
-    returns `MHD_YES` only if the whole chunk was copied -/
 theorem MPend.drop {pp : PP} {T : Bytes} {io : Nat} (h : MPend pp T io) :
     MPend (if io ≠ 0 then { pp with buf := pp.buf.drop io } else pp) T 0 := by
   by_cases h0 : io ≠ 0
@@ -285,90 +299,80 @@ theorem MPend.error {pp : PP} {T : Bytes} (h : MPend pp T 0) : MPend { pp with s
   ⟨⟨h.ctl.fault, h.ctl.url, by simp [MpState], h.ctl.dst, by intro hh; simp [NeedsNested] at hh⟩, h.size, h.pos, h.win,
     h.evs, Nat.zero_le _⟩
 
-/-- one multipart call: either the model's fuel ran out, or the invariant holds again for the
-    input received so far extended by the part `d.take p` of the chunk that was copied; the call
-    returns `MHD_YES` only if the whole chunk was copied -/
+theorem phi_init_lt (d : Bytes) (pp : PP) : phi d pp {} < 16 * (d.length + pp.buf.length) + 16 := by
+  unfold phi
+  have h1 := rankM_le pp.state
+  generalize (decide ((({} : ML).poff) < d.length ∧ pp.buf.length < pp.bufferSize)) = b1
+  have h3 := toNat_le_one b1
+  show 16 * (d.length - 0 + pp.buf.length) + 2 * rankM pp.state + true.toNat + b1.toNat < _
+  simp only [Bool.toNat_true]
+  omega
+
+/-- one multipart call: the invariant holds again for the input received so far extended by the
+    part `d.take p` of the chunk that was copied; the call returns `MHD_YES` only if the whole
+    chunk was copied -/
 theorem postProcessMultipart_spec (pp : PP) (d T : Bytes) (h : MPend pp T 0) :
-    (postProcessMultipart pp d).1.fault = fuelFault ∨
     ∃ p, p ≤ d.length ∧ MPend (postProcessMultipart pp d).1 (T ++ d.take p) 0 ∧
       ((postProcessMultipart pp d).2 = true → p = d.length) := by
   unfold postProcessMultipart
-  have key := mpLoop_spec d (8 * (d.length + pp.buf.length) + 16) pp {} T h rfl (Nat.zero_le _)
-  generalize mpLoop (8 * (d.length + pp.buf.length) + 16) d pp {} = r at key
+  have key := mpLoop_spec d (16 * (d.length + pp.buf.length) + 16) pp {} T h rfl (Nat.zero_le _) (phi_init_lt d pp)
+  generalize mpLoop (16 * (d.length + pp.buf.length) + 16) d pp {} = r at key
   obtain ⟨pp1, l1, fl⟩ := r
   simp only at key
-  rcases key with ⟨hf, hfl⟩ | ⟨_, j2, j3⟩
-  · subst hfl
-    exact Or.inl hf
-  · rw [slice_zero] at j3
-    have tail : ∀ (_ : fl ≠ .ret),
-        (if l1.ioff > pp1.buf.length then (pp1.setFault "memmove-oob", false) else
+  obtain ⟨_, j2, j3⟩ := key
+  rw [slice_zero] at j3
+  have tail : ∀ (_ : fl ≠ .ret),
+      ∃ p, p ≤ d.length ∧
+        MPend (if l1.ioff > pp1.buf.length then (pp1.setFault "memmove-oob", false) else
           if l1.poff < d.length then
             ({ (if l1.ioff ≠ 0 then { pp1 with buf := pp1.buf.drop l1.ioff } else pp1) with state := .error }, false)
-          else ((if l1.ioff ≠ 0 then { pp1 with buf := pp1.buf.drop l1.ioff } else pp1), true)).1.fault = fuelFault ∨
-        ∃ p, p ≤ d.length ∧
-          MPend (if l1.ioff > pp1.buf.length then (pp1.setFault "memmove-oob", false) else
-            if l1.poff < d.length then
-              ({ (if l1.ioff ≠ 0 then { pp1 with buf := pp1.buf.drop l1.ioff } else pp1) with state := .error }, false)
-            else ((if l1.ioff ≠ 0 then { pp1 with buf := pp1.buf.drop l1.ioff } else pp1), true)).1 (T ++ d.take p) 0 ∧
-          ((if l1.ioff > pp1.buf.length then (pp1.setFault "memmove-oob", false) else
-            if l1.poff < d.length then
-              ({ (if l1.ioff ≠ 0 then { pp1 with buf := pp1.buf.drop l1.ioff } else pp1) with state := .error }, false)
-            else ((if l1.ioff ≠ 0 then { pp1 with buf := pp1.buf.drop l1.ioff } else pp1), true)).2 = true → p = d.length) := by
-      intro _
-      right
-      have hio : ¬ l1.ioff > pp1.buf.length := by have := j3.io; omega
-      rw [if_neg hio]
-      by_cases hp : l1.poff < d.length
-      · rw [if_pos hp]
-        exact ⟨l1.poff, j2, j3.drop.error, nofun⟩
-      · rw [if_neg hp]
-        exact ⟨l1.poff, j2, j3.drop, fun _ => by omega⟩
-    cases fl with
-    | ret =>
-      right
-      exact ⟨l1.poff, j2, ⟨j3.ctl, j3.size, j3.pos, j3.win, j3.evs, Nat.zero_le _⟩, nofun⟩
-    | again => exact tail (by decide)
-    | gotoEnd => exact tail (by decide)
-
-
+          else ((if l1.ioff ≠ 0 then { pp1 with buf := pp1.buf.drop l1.ioff } else pp1), true)).1 (T ++ d.take p) 0 ∧
+        ((if l1.ioff > pp1.buf.length then (pp1.setFault "memmove-oob", false) else
+          if l1.poff < d.length then
+            ({ (if l1.ioff ≠ 0 then { pp1 with buf := pp1.buf.drop l1.ioff } else pp1) with state := .error }, false)
+          else ((if l1.ioff ≠ 0 then { pp1 with buf := pp1.buf.drop l1.ioff } else pp1), true)).2 = true → p = d.length) := by
+    intro _
+    have hio : ¬ l1.ioff > pp1.buf.length := by have := j3.io; omega
+    rw [if_neg hio]
+    by_cases hp : l1.poff < d.length
+    · rw [if_pos hp]
+      exact ⟨l1.poff, j2, j3.drop.error, nofun⟩
+    · rw [if_neg hp]
+      exact ⟨l1.poff, j2, j3.drop, fun _ => by omega⟩
+  cases fl with
+  | ret => exact ⟨l1.poff, j2, ⟨j3.ctl, j3.size, j3.pos, j3.win, j3.evs, Nat.zero_le _⟩, nofun⟩
+  | again => exact tail (by decide)
+  | gotoEnd => exact tail (by decide)
 
 /-- invariant between two `MHD_post_process` calls in multipart mode.  `input` = all bytes handed
     to the post processor so far, `T` = the part of it that was accepted (calls that return `MHD_NO`
     drop the rest of their chunk), `allYes` = every call so far returned `MHD_YES`. -/
 def MGood (pp : PP) (input : Bytes) (allYes : Bool) : Prop :=
-  pp.fault = fuelFault ∨ ∃ T, List.Sublist T input ∧ (allYes = true → T = input) ∧ MPend pp T 0
+  ∃ T, List.Sublist T input ∧ (allYes = true → T = input) ∧ MPend pp T 0
 
 theorem feed_mgood (pp : PP) (d input : Bytes) (ay : Bool) (h : MGood pp input ay) :
     MGood (feed pp d).1 (input ++ d) (ay && (feed pp d).2) := by
-  rcases h with hf | ⟨T, hsub, hall, hP⟩
-  · left
-    have : pp.fault.isSome = true := by rw [hf]; rfl
-    simp only [feed, this, if_true]
-    exact hf
-  · have hfs : pp.fault.isSome = false := by rw [hP.ctl.fault]; rfl
-    by_cases hd : d.length = 0
-    · have : d = [] := List.length_eq_zero_iff.mp hd
-      subst this
-      right
-      refine ⟨T, by simpa using hsub, ?_, by simpa [feed, hfs] using hP⟩
-      intro hh
-      have : ay = true := by
-        cases ay <;> simp_all
-      simpa using hall this
-    · have hu : pp.isUrl = false := hP.ctl.url
-      have hfeed : feed pp d = postProcessMultipart pp d := by
-        simp [feed, hfs, hd, hu]
-      rw [hfeed]
-      rcases postProcessMultipart_spec pp d T hP with hf | ⟨p, hp, hP', hyes⟩
-      · exact Or.inl hf
-      · right
-        refine ⟨T ++ d.take p, List.Sublist.append hsub (List.take_sublist p d), ?_, hP'⟩
-        intro hh
-        have h1 : ay = true := by cases ay <;> simp_all
-        have h2 : (postProcessMultipart pp d).2 = true := by cases ay <;> simp_all
-        rw [hall h1, hyes h2]
-        simp
+  obtain ⟨T, hsub, hall, hP⟩ := h
+  have hfs : pp.fault.isSome = false := by rw [hP.ctl.fault]; rfl
+  by_cases hd : d.length = 0
+  · have : d = [] := List.length_eq_zero_iff.mp hd
+    subst this
+    refine ⟨T, by simpa using hsub, ?_, by simpa [feed, hfs] using hP⟩
+    intro hh
+    have : ay = true := by
+      cases ay <;> simp_all
+    simpa using hall this
+  · have hu : pp.isUrl = false := hP.ctl.url
+    have hfeed : feed pp d = postProcessMultipart pp d := by
+      simp [feed, hfs, hd, hu]
+    rw [hfeed]
+    obtain ⟨p, hp, hP', hyes⟩ := postProcessMultipart_spec pp d T hP
+    refine ⟨T ++ d.take p, List.Sublist.append hsub (List.take_sublist p d), ?_, hP'⟩
+    intro hh
+    have h1 : ay = true := by cases ay <;> simp_all
+    have h2 : (postProcessMultipart pp d).2 = true := by cases ay <;> simp_all
+    rw [hall h1, hyes h2]
+    simp
 
 /-- fold of `feed` that also records whether every call returned `MHD_YES` -/
 def feedAllYes (pp : PP) : List Bytes → PP × Bool
@@ -393,8 +397,6 @@ theorem feedAll_mgood : ∀ (chunks : List Bytes) (pp : PP) (input : Bytes) (ay 
     rw [← List.append_assoc, Bool.and_assoc] at *
     exact h2
 
-
-
 theorem create_multipart_mpend (n : Nat) (ctype : Bytes) (pp0 : PP) (hc : create n ctype = some pp0)
     (hu : pp0.isUrl = false) : MPend pp0 [] 0 := by
   unfold create at hc
@@ -418,35 +420,30 @@ theorem mem_of_infix {a T : Bytes} (h : a <:+: T) {b : UInt8} (hb : b ∈ a) : b
   obtain ⟨x, y, hxy⟩ := h
   rw [← hxy]; simp [hb]
 
-/-- Multipart, **all inputs and all splits**: unless the model's loop fuel runs out (see
-    `Mhd.C15`), no access leaves an object, every delivered value byte is a byte of the input, and if
-    every call returned `MHD_YES` every delivered piece is a contiguous piece of the input. -/
+/-- Multipart, **all inputs and all splits**: no access leaves an object, the loop of the model ends
+    within its fuel, every delivered value byte is a byte of the input, and if every call returned
+    `MHD_YES` every delivered piece is a contiguous piece of the input. -/
 theorem multipart_all_inputs (n : Nat) (ctype : Bytes) (pp0 : PP) (chunks : List Bytes)
     (hc : create n ctype = some pp0) (hu : pp0.isUrl = false) :
-    (destroy (feedAll pp0 chunks)).1.fault = fuelFault ∨
-    ((destroy (feedAll pp0 chunks)).1.fault = none ∧
+    (destroy (feedAll pp0 chunks)).1.fault = none ∧
       (∀ e ∈ (destroy (feedAll pp0 chunks)).1.evs, ∀ b ∈ e.data, b ∈ chunks.flatten) ∧
       ((feedAllYes pp0 chunks).2 = true →
-        ∀ e ∈ (destroy (feedAll pp0 chunks)).1.evs, e.data <:+: chunks.flatten)) := by
-  have h0 : MGood pp0 [] true := Or.inr ⟨[], List.Sublist.refl _, fun _ => rfl, create_multipart_mpend n ctype pp0 hc hu⟩
+        ∀ e ∈ (destroy (feedAll pp0 chunks)).1.evs, e.data <:+: chunks.flatten) := by
+  have h0 : MGood pp0 [] true := ⟨[], List.Sublist.refl _, fun _ => rfl, create_multipart_mpend n ctype pp0 hc hu⟩
   have h1 := feedAll_mgood chunks pp0 [] true h0
   rw [feedAllYes_fst] at h1
   simp only [List.nil_append, Bool.true_and] at h1
-  rcases h1 with hf | ⟨T, hsub, hall, hP⟩
-  · left
-    have : (feedAll pp0 chunks).fault.isSome = true := by rw [hf]; rfl
-    simp only [destroy, this, if_true]
-    exact hf
-  · right
-    have hfs : (feedAll pp0 chunks).fault.isSome = false := by rw [hP.ctl.fault]; rfl
-    have hst : (feedAll pp0 chunks).state ≠ .processValue := hP.ctl.st.2.1
-    have hd : (destroy (feedAll pp0 chunks)).1 = feedAll pp0 chunks := by
-      simp [destroy, hfs, hst]
-    rw [hd]
-    refine ⟨hP.ctl.fault, ?_, ?_⟩
-    · intro e he b hb
-      exact hsub.subset (mem_of_infix (hP.evs e he) hb)
-    · intro hyes e he
-      rw [← hall hyes]
-      exact hP.evs e he
+  obtain ⟨T, hsub, hall, hP⟩ := h1
+  have hfs : (feedAll pp0 chunks).fault.isSome = false := by rw [hP.ctl.fault]; rfl
+  have hst : (feedAll pp0 chunks).state ≠ .processValue := hP.ctl.st.2.1
+  have hd : (destroy (feedAll pp0 chunks)).1 = feedAll pp0 chunks := by
+    simp [destroy, hfs, hst]
+  rw [hd]
+  refine ⟨hP.ctl.fault, ?_, ?_⟩
+  · intro e he b hb
+    exact hsub.subset (mem_of_infix (hP.evs e he) hb)
+  · intro hyes e he
+    rw [← hall hyes]
+    exact hP.evs e he
+
 end Mhd.PP
